@@ -47,10 +47,10 @@ def _is_param(t, name: str) -> bool:
 
 
 def _shorthand_paths(env, modname: str, fname: str):
-    m = env.repo.modules.get(modname)
-    if m is None or fname not in m.functions:
+    mf = env.repo.function(modname, fname)
+    if mf is None:
         raise AnalysisError(f"{modname}.{fname} not found")
-    fn = m.functions[fname]
+    m, fn = mf
     params = [a.arg for a in fn.args.args]
     interp = env.interp()
     res = interp.explore(lambda it: (m, fn, [Sym("param", p) for p in params], {}, None))
